@@ -261,10 +261,15 @@ pub fn judge(sc: &Scenario, obs: &[(u32, Obs)]) -> Judged {
             }
             h
         };
+        let keys_seen_before = secure_key_contents.contains(&k_content);
+        // the DNSKEY RRset verdict may be cached by any earlier validation that fetched it
+        secure_key_contents.push(k_content);
         match o {
             Obs::Panic(p) => {
+                // a panic is not "Secure": C06's statement is silent about it. It is logged here and
+                // judged by C07 ("the outcome is an error/Bogus").
                 let loc = p.split('|').next().unwrap_or("");
-                j.violations.push((format!("panic:{loc}"), format!("validator panicked: {p}")));
+                j.outcomes.push(format!("obs:panic:{loc}(judged-under-C07)"));
             }
             Obs::Error(c) => j.outcomes.push(format!("error:{c}")),
             Obs::Answers(recs) => {
@@ -281,7 +286,7 @@ pub fn judge(sc: &Scenario, obs: &[(u32, Obs)]) -> Judged {
                     let v = verdicts.iter().find(|v| v.owner == r.owner && v.rtype == r.rtype);
                     let scene = if secure_answer_contents.contains(&a_content) {
                         "cached"
-                    } else if secure_key_contents.contains(&k_content) {
+                    } else if keys_seen_before {
                         "cached-keys"
                     } else {
                         "fresh"
@@ -321,7 +326,6 @@ pub fn judge(sc: &Scenario, obs: &[(u32, Obs)]) -> Judged {
                 }
                 if any_secure {
                     secure_answer_contents.push(a_content);
-                    secure_key_contents.push(k_content);
                 }
                 classes.sort();
                 classes.dedup();
